@@ -391,12 +391,109 @@ def run(ctx):
               f"labels are not an element-wise image of the ticks: {(bad_rets + bad_defs)[:2]}", ft.where)
 
     # the level grammar of the tick handler (unit strings -> (unit, amount)) is a table: confirmed entry by entry
-    pl = TT.methods.get("parse_level")
-    ctx.saw(pl)
-    mt = [n.value for n in ast.walk(pl.node) if isinstance(n, ast.Assign) and U(n.targets[0]) == "matchers" and isinstance(n.value, ast.Tuple)]
+    plv = TT.methods.get("parse_level")
+    ctx.saw(plv)
+    mt = [n.value for n in ast.walk(plv.node) if isinstance(n, ast.Assign) and U(n.targets[0]) == "matchers" and isinstance(n.value, ast.Tuple)]
     table = [(const_value(e.elts[0]), U(e.elts[1].body)) for e in mt[0].elts if isinstance(e, ast.Tuple) and len(e.elts) == 2 and isinstance(e.elts[1], ast.Lambda)] if mt else []
     want_tbl = [("^(center|edge)s?$", "(m[1], 0)"), ("^([0-9\\.]+)?d(ay(s)?)?$", "('day', float(m[1] or 1))"),
                 ("^([0-9]+)?h(our(s)?)?$", "('hour', int(m[1] or 1))"), ("^([0-9]+)?m(in(s)?)?$", "('min', int(m[1] or 1))"),
                 ("^([0-9\\.]+)?(\\.[0-9]+)?s(ec(s)?)?$", "('sec', float(m[1] or 1) + float('0.' + (m[2] or '0')))")]
     ctx.check(table == want_tbl, "C20.e", "TimeTickHandler.parse_level:grammar", "5 unit patterns with their amount expressions as confirmed",
-              f"the level grammar changed: {[t for t in table if t not in want_tbl][:2]} (e.g. '.5s' must mean half a second)", pl.where)
+              f"the level grammar changed: {[t for t in table if t not in want_tbl][:2]} (e.g. '.5s' must mean half a second)", plv.where)
+
+    # ---- C20.f sweep-driven: every 1-D kind sets limits and ticks, error bars are drawn iff asked, tick helpers, wrapper -------
+    ctx.rule("C20.f", "1-D kinds: limits, ticks and (iff errors) error bars; tick helpers map 'center' / 'edge' / handler; the register wrapper "
+             "draws every histogram; colour normalisation branches", 12)
+    for kind in ("bar", "scatter", "line", "fill", "step"):
+        fi = mp.functions[kind]
+        hp = fi.params()[0]
+        names_ = [(U(c.func), [U(a) for a in c.args]) for c in calls_in(fi.node)]
+        ctx.check(("_apply_xy_lims", ["ax", hp, "data", "kwargs"]) in names_ and ("_add_ticks", ["ax", hp, "kwargs"]) in names_, "C20.f",
+                  f"matplotlib.{kind}:limits-and-ticks", "_apply_xy_lims(ax, h, data, kwargs) and _add_ticks(ax, h, kwargs) are called",
+                  f"{kind} no longer sets the axis range from the data and the ticks from the histogram", fi.where)
+        if "errors" in fi.params():
+            pol = {}
+            for p_ in function_paths(fi.node):
+                if end_kind(p_) == "raise":
+                    continue
+                cs_ = dict((U(s_[1]), s_[2]) for s_ in p_ if s_[0] == "cond")
+                if "errors" in cs_:
+                    drawn = any(s_[0] == "stmt" and ("kwargs['yerr'] = err_data" == U(s_[1]) or any(
+                        isinstance(c.func, ast.Attribute) and c.func.attr == "errorbar" and U(kwarg(c, "yerr")) == "err_data" for c in calls_in(s_[1]))) for s_ in p_)
+                    got_err = any(s_[0] == "stmt" and isinstance(s_[1], ast.Assign) and U(s_[1].targets[0]) == "err_data" for s_ in p_)
+                    pol.setdefault(cs_["errors"], set()).add(drawn and got_err)
+            ctx.check(pol.get(True) == {True} and pol.get(False) == {False}, "C20.f", f"matplotlib.{kind}:errors-iff-asked",
+                      "error data are computed and drawn exactly when errors=True", f"error bars drawn per `errors` decision: {pol}", fi.where)
+    for mod_, fname, centers, edges in ((mp, "_add_ticks", "ax.set_xticks(h1.bin_centers)", "ax.set_xticks(h1.bin_left_edges)"),
+                                        (pl, "_add_ticks", "xaxis.tickvals = histogram.bin_centers", "xaxis.tickvals = histogram.bin_left_edges")):
+        fi = mod_.functions[fname]
+        ctx.saw(fi)
+        res = {}
+        for p_ in function_paths(fi.node):
+            if end_kind(p_) == "raise":
+                continue
+            cs_ = dict((U(s_[1]), s_[2]) for s_ in p_ if s_[0] == "cond")
+            sts_ = [U(s_[1]) for s_ in p_ if s_[0] == "stmt"]
+            if cs_.get("tick_handler"):
+                res.setdefault("handler", set()).add(any("tick_handler(" in t and t.startswith("(ticks, labels)") or t.startswith("ticks, labels = tick_handler(") for t in sts_)
+                                                     and (("ax.set_xticks(ticks)" in sts_ and "ax.set_xticklabels(labels)" in sts_)
+                                                          or ("xaxis.tickvals = ticks" in sts_ and "xaxis.ticktext = labels" in sts_)))
+            for word, stmt in (("center", centers), ("edge", edges)):
+                k_ = f"ticks == '{word}'"
+                if k_ in cs_ and not cs_.get("tick_handler"):
+                    res.setdefault((word, cs_[k_]), set()).add(stmt in sts_)
+        okt = res.get("handler") == {True} and res.get(("center", True)) == {True} and res.get(("edge", True)) == {True} \
+            and res.get(("center", False), {False}) == {False} and res.get(("edge", False), {False}) == {False}
+        ctx.check(okt, "C20.f", f"{mod_.short}.{fname}", "handler: its ticks and labels are both applied; 'center' -> bin centres; 'edge' -> left edges; nothing else",
+                  f"tick placement per decision: { {str(k): sorted(v) for k, v in res.items()} }", fi.where)
+    gt_ = TT.methods["get_time_ticks"]
+    res = {}
+    for p_ in function_paths(gt_.node):
+        if end_kind(p_) != "return":
+            continue
+        cs_ = dict((U(s_[1]), s_[2]) for s_ in p_ if s_[0] == "cond")
+        key_ = "edge" if cs_.get("level[0] == 'edge'") else ("center" if cs_.get("level[0] == 'center'") else "unit")
+        res.setdefault(key_, set()).add(U(p_[-1][2].value))
+    wdef = [U(n.value) for n in ast.walk(gt_.node) if isinstance(n, ast.Assign) and U(n.targets[0]) == "width"]
+    ctx.check(res.get("edge") == {"h1.numpy_bins.tolist()"} and res.get("center") == {"list(h1.bin_centers)"} and len(res.get("unit", ())) == 1
+              and wdef in (["level[1] * self.LEVELS[level[0]]"], ["self.LEVELS[level[0]] * level[1]"]), "C20.f", "TimeTickHandler.get_time_ticks:levels",
+              "'edge' -> all edges, 'center' -> bin centres, otherwise multiples of amount * unit seconds",
+              f"ticks per level kind: { {k: sorted(v) for k, v in res.items()} }, width = {wdef}", gt_.where)
+    ged = com.functions["get_err_data"]
+    tge = {}
+    for p_ in function_paths(ged.node):
+        if end_kind(p_) != "return":
+            continue
+        cs_ = dict((U(s_[1]), s_[2]) for s_ in p_ if s_[0] == "cond")
+        tge.setdefault(cs_.get("flatten"), set()).add(any(s_[0] == "stmt" and U(s_[1]) == "data = data.flatten()" for s_ in p_))
+    ctx.check(tge.get(True) == {True} and tge.get(False) == {False}, "C20.f", "get_err_data:flatten", "flattened iff flatten=True",
+              f"flattening per `flatten` decision: {tge}", ged.where)
+    wr = [n for n in ast.walk(reg.node) if isinstance(n, ast.FunctionDef) and n.name == "wrapped"]
+    tw = U(wr[0]) if wr else ""
+    ctx.check("f(hist, ax=ax, **kwargs)" in tw and "f(h, ax=ax, **kwargs)" in tw and "for h in hist:" in tw and "return ax" in tw
+              and "(fig, ax) = _get_axes(kwargs, use_3d=use_3d, use_polar=use_polar)" in tw.replace("fig, ax = _get_axes", "(fig, ax) = _get_axes"),
+              "C20.f", "matplotlib.register:wrapped", "the wrapper draws the histogram (every member of a collection) on the axes it created and returns them",
+              "the registered wrapper no longer calls the plot function for the histogram / each member with ax and kwargs", reg.where)
+    gcd_ = mp.functions["_get_cmap_data"]
+    br = {}
+    for p_ in function_paths(gcd_.node):
+        if end_kind(p_) != "return":
+            continue
+        cs_ = dict((U(s_[1]), s_[2]) for s_ in p_ if s_[0] == "cond")
+        kinds_ = [U(c.func).split(".")[-1] for s_ in p_ if s_[0] == "stmt" for c in calls_in(s_[1]) if U(c.func).split(".")[-1] in ("LogNorm", "Normalize")]
+        mins_ = [U(s_[1].value) for s_ in p_ if s_[0] == "stmt" and isinstance(s_[1], ast.Assign) and U(s_[1].targets[0]) == "cmap_min"]
+        br[(cs_.get("norm == 'log'"), cs_.get("cmap_min == 'min'"))] = (kinds_, mins_)
+    dpar_ = gcd_.params()[0]
+    okbr = br.get((True, None), ([], []))[0] == ["LogNorm"] and br.get((False, True), ([], []))[0] == ["Normalize"] \
+        and br.get((False, True))[1][-1:] == [f"{dpar_}.min()"] and br.get((False, False), ([], [None]))[1] == ["kwargs.pop('cmap_min', 0)"]
+    ctx.check(okbr, "C20.f", "matplotlib._get_cmap_data:branches", "'log' -> LogNorm; otherwise Normalize from 0 (or the data minimum on request) to the maximum",
+              f"normalisers / minima per (norm == 'log', cmap_min == 'min'): {br}", gcd_.where)
+    imc = [c for c in calls_in(img.node) if isinstance(c.func, ast.Attribute) and c.func.attr == "imshow"]
+    ctx.check(len(imc) == 1 and U(kwarg(imc[0], "cmap")) == "cmap" and U(kwarg(imc[0], "norm")) == "norm", "C20.f", "matplotlib.image:colours",
+              "imshow receives the colour map and the normaliser of the data", "image() no longer passes cmap / norm to imshow", img.where)
+    for fname in ("bar", "_line_or_scatter"):
+        fi = pl.functions[fname]
+        tfi = U(fi.node)
+        ctx.check("go.Figure(data=data, layout=layout)" in tfi.replace("layout=layout, data=data", "data=data, layout=layout") and "_add_ticks(layout.xaxis, h[0], kwargs)" in tfi,
+                  "C20.f", f"plotly.{fname}:figure", "Figure(data=<traces>, layout=<layout with ticks>)", f"plotly {fname} no longer builds the figure from its traces and layout",
+                  fi.where)
